@@ -175,6 +175,7 @@ class SnapOracle(RaftOracle):
         RaftOracle.__init__(self, world, app)
         self.check_log_matching = False
         self.userser = world.cfg.get('userser')
+        self.userser_dropped = None
         self.queue = []              # (host, raw bytes, where) to verify after the event
         self.produced = 0
         self.verified = 0
@@ -190,7 +191,22 @@ class SnapOracle(RaftOracle):
             if raw is not None:
                 self.queue.append((fs.host, bytes(raw), 'dump file after rename'))
 
+    def flag(self, inv, msg, detail=None):
+        if self.userser and self.userser_dropped is not None:
+            # the known user-deserializer finding's other face: a received snapshot had to be loaded over a log that
+            # reached beyond it (the acknowledged entries after its position are gone) - what follows in this run is
+            # marked as its consequence
+            detail = dict(detail or {})
+            detail.setdefault('userser_tail_dropped', self.userser_dropped)
+        RaftOracle.flag(self, inv, msg, detail)
+
     def after_event(self, ev, out, touched):
+        if self.userser and self.userser_dropped is None:
+            for l in self.w.step_loads:
+                v = self.views.get(l[0])
+                if l[1] and v is not None and v.sig is not None and v.sig[1] > l[3]:
+                    self.userser_dropped = dict(host=l[0], log_end=v.sig[1], snapshot=l[3], evno=self.w.evno)
+                    self.w.probe('userser_snapshot_loaded_over_longer_log')
         RaftOracle.after_event(self, ev, out, touched)
         w = self.w
         if touched is not None:
@@ -476,6 +492,8 @@ def match_known(k, viol, events, cfg):
     if m.get('kind') == 'userser':
         return bool(cfg.get('userser'))
     if m.get('kind') == 'userser_after_stale_load':
-        # consequences of the stale snapshot load (K-C09-userser-stale-snapshot) later in the same run
-        return bool(cfg.get('userser')) and 'applied_back' in ((viol.get('detail') or {}).get('after') or [])
+        # consequences of the stale snapshot load (K-C09-userser-stale-snapshot) later in the same run: the applied index
+        # went back, or the snapshot was loaded over a log that reached beyond it
+        d = viol.get('detail') or {}
+        return bool(cfg.get('userser')) and ('applied_back' in (d.get('after') or []) or bool(d.get('userser_tail_dropped')))
     return False
